@@ -19,7 +19,7 @@ EXPLANATION = (
     "observed family with the observed source and incoming Established is guarded by it. R5: a discovered record replaces "
     "a stored one only past stored.seq() < record.seq() (strict), under the key of the record's own node id.")
 NOT_DECIDED = ["dual-stack address selection values", "the table's own structural integrity (C07)"]
-TRUSTED = ["IpMode::get_contactable_addr decides contactability", "Enr::seq / node_id"]
+TRUSTED = ["Enr::seq / node_id"]
 
 SV = "crate::service::Service::"
 KT = "crate::kbucket::KBucketsTable::"
@@ -323,7 +323,61 @@ def r4(ctx):
     return rule
 
 
+def r6(ctx):
+    """'contactable in the node's IP mode': what IpMode::get_contactable_addr accepts as an address"""
+    facts = ctx.facts
+    rule = Rule("C12.R6", "contactable address: IPv4 from udp4_socket; IPv6 only through canonical_ipv6_enr_addr (an IPv4-mapped address in the IPv6 field is not contactable)",
+                floor=4, engine="A-who + A-prov + A-dom")
+    GC = "crate::ipmode::IpMode::get_contactable_addr"
+    b = facts.one(re.escape(GC) + "$")
+    rule.analysed(b)
+    p = Prov(b, facts)
+    direct = []
+    for pth, bb in sorted(facts.bodies.items()):
+        if pth.startswith(GC) and not pth.startswith(GC + "::canonical_ipv6_enr_addr"):
+            for bi, t in bb.calls():
+                if short(t.callee() or "").endswith("Enr::udp6_socket") or re.search(r"Enr(<.*>)?::(udp6_socket|ip6|udp6)$", t.callee() or ""):
+                    direct.append(pth.split("::")[-1])
+    rule.check(not direct, "get_contactable_addr reads the IPv6 endpoint only through canonical_ipv6_enr_addr", "contactable|raw-ipv6",
+               "IpMode::get_contactable_addr reads the record's IPv6 endpoint directly (%s): a record whose IPv6 field holds an IPv4-mapped address counts as contactable and "
+               "can enter or stay in the routing table" % ", ".join(direct), loc=b.loc(b.line))
+    ret = p.local(0)
+    alts = list(ret[1]) if ret[0] == "phi" else [ret]
+    okk = len(alts) >= 3
+    for a in alts:
+        txt = fmt(a, -60)
+        six = "canonical_ipv6_enr_addr" in txt
+        four = "udp4_socket" in txt or any(x[0] == "agg" and isinstance(x[1], str) and x[1].startswith("closure:") for x in walk(a))
+        okk = okk and (six or four)
+    rule.check(okk, "every arm returns the canonical IPv6 endpoint and / or the IPv4 endpoint of the record", "contactable|arms",
+               "IpMode::get_contactable_addr returns %s" % fmt_short(ret)[:200], loc=b.loc(b.line))
+    cb = facts.one(re.escape(GC) + r"::canonical_ipv6_enr_addr::\{closure#0\}$")
+    rule.analysed(cb)
+    cp = Prov(cb, facts)
+    g = Guards(cb, cp, facts)
+    mapped = []
+    for bi, t, e in g.switches():
+        inner = e
+        neg = False
+        while inner[0] == "un" and inner[1] == "Not":
+            inner, neg = inner[2], not neg
+        if inner[0] == "call" and re.search(r"Option::is_(some|none)$", short(inner[1])) and any(x[0] == "call" and short(x[1]).endswith("to_ipv4_mapped") for x in walk(inner)):
+            f_, tr_ = g.bool_edges(bi)
+            is_mapped_true = short(inner[1]).endswith("is_some") != neg
+            mapped.append((bi, tr_ if is_mapped_true else f_))
+    some_sites = [blk.idx for blk in cb.blocks for st_ in blk.stmts if st_.k == "a" and st_.rv.k == "agg" and st_.rv.j.get("variant") == "Some" and blk.idx in cb.live_blocks()]
+    okc = bool(mapped) and bool(some_sites)
+    for mb, tgt in mapped:
+        if any(x in cb.reachable(tgt) for x in some_sites):
+            okc = False
+    rule.check(okc, "canonical_ipv6_enr_addr yields nothing for an IPv4-mapped address", "contactable|mapped",
+               "canonical_ipv6_enr_addr returns an address although to_ipv4_mapped(ip) is Some", loc=cb.loc(cb.line))
+    who = sorted({strip_closure(pth) for pth, bb in facts.bodies.items() for bi, t in bb.calls() if (t.callee() or "") == GC + "::canonical_ipv6_enr_addr"})
+    rule.check(who == [GC], "canonical_ipv6_enr_addr is the IPv6 source of get_contactable_addr", "contactable|who", "canonical_ipv6_enr_addr is called from %s" % who)
+    return rule
+
+
 def run(ctx):
     G = lambda l, f, *a: guarded("C12." + l, f, ctx, *a)
     x = G("R3-R5", r3_r5)
-    return G("R1", r1) + G("R2", r2) + x[:1] + G("R4", r4) + x[1:]
+    return G("R1", r1) + G("R2", r2) + x[:1] + G("R4", r4) + x[1:] + G("R6", r6)
